@@ -210,9 +210,21 @@ class Check:
         return not self.violations
 
     def obligation(self, ok):
+        """one correspondence obligation; when it fails, the violations reported next are attached to it, and it
+        still counts as discharged if all of them are listed known findings"""
+        self._settle()
         self.obligations += 1
         if ok:
             self.discharged += 1
+        else:
+            self._pending = {"real": 0, "known": 0}
+
+    def _settle(self):
+        p = getattr(self, "_pending", None)
+        if p and p["real"] == 0 and p["known"] > 0:
+            self.discharged += 1
+            self.excused = getattr(self, "excused", 0) + 1
+        self._pending = None
 
     # -- exploration bookkeeping
     def case(self, key=None, nontrivial=True, sample=None):
@@ -230,10 +242,15 @@ class Check:
                     and kf.get("match") == match_key:
                 if kf["id"] not in [k["id"] for k in self.known_hits]:
                     self.known_hits.append(kf)
+                if getattr(self, "_pending", None):
+                    self._pending["known"] += 1
                 return
+        if getattr(self, "_pending", None):
+            self._pending["real"] += 1
         self.violations.append((kind, what, replay, found_input))
 
     def finish(self, level="proof", rule="", extra=None):
+        self._settle()
         wall = time.time() - self.t0
         self.cov["distinct_nontrivial"] = len(self._distinct)
         cov = dict(self.cov)
@@ -244,7 +261,8 @@ class Check:
         cov.update(self.notes)
         ev = {"property_id": self.pid, "tier": self.tier, "seed": self.seed, "level": level, "coverage": cov,
               "assumptions": self.assumptions, "wall_s": round(wall, 2), "violations": len(self.violations),
-              "known_findings_hit": [k["id"] for k in self.known_hits]}
+              "known_findings_hit": [k["id"] for k in self.known_hits],
+              "obligations_excused_by_known_findings": getattr(self, "excused", 0)}
         (VERIF / "evidence").mkdir(exist_ok=True)
         (VERIF / "evidence" / f"{self.pid}.json").write_text(json.dumps(ev, indent=1, default=str))
         for kf in self.known_hits:
